@@ -1143,6 +1143,7 @@ pub fn sweeps_for(which: Which, tier: Tier) -> Vec<Sweep> {
             v.push(small_sweep(which, tier));
             v.push(type_group_sweep(which, tier));
             v.push(type_pair_sweep(which, tier));
+            v.push(late_hole_sweep(which, tier));
         }
         Which::C06 => {
             v.push(nested_sweep(which, tier));
